@@ -132,6 +132,89 @@ impl KSub for KT {
     }
 }
 
+/// A plain 40-byte value (bigger than any "small value" threshold): the expiring tree / list instantiated with it
+/// take whatever code path an implementation selects by `size_of::<V>()`.  Converted to and from the harness's
+/// `u32` value codes at the boundary; a value whose five words are no longer consistent reads as a code no
+/// reference answer can have.
+#[derive(Clone, Copy, Debug, PartialEq)]
+pub struct WV(pub [u64; 5]);
+impl WV {
+    fn of(v: u32) -> Self {
+        let x = v as u64;
+        WV([x, x.wrapping_mul(0x9e37_79b9_7f4a_7c15), !x, x ^ 0x5a5a_5a5a, 7])
+    }
+    fn code(self) -> u32 {
+        if self == WV::of(self.0[0] as u32) && self.0[0] <= u32::MAX as u64 { self.0[0] as u32 } else { 0xdead_beef }
+    }
+}
+pub type KTW = KeyExpTree<EKey, u8, WV>;
+pub type KLW = KeyExpList<EKey, u8, WV>;
+macro_rules! wide_ksub {
+    ($t:ty, $tree:expr, $name:expr) => {
+        impl KSub for $t {
+            const IS_TREE: bool = $tree;
+            fn name() -> String {
+                $name.into()
+            }
+            fn new(cap: usize) -> Self {
+                <$t>::new(cap)
+            }
+            fn is_empty(&self) -> bool {
+                KeyExpCollection::is_empty(self)
+            }
+            fn insert(&mut self, k: EKey, v: u32, t: u8) {
+                KeyExpCollection::insert(self, k, WV::of(v), t)
+            }
+            fn get(&mut self, t: u8, k: EKey) -> Option<u32> {
+                KeyExpCollection::get_value(self, t, k).map(|w| w.code())
+            }
+            fn fl(&mut self, t: u8, d: u32, k: EKey) -> u32 {
+                KeyExpCollection::first_less(self, t, WV::of(d), k).code()
+            }
+            fn fle(&mut self, t: u8, d: u32, k: EKey) -> u32 {
+                KeyExpCollection::first_less_or_equal(self, t, WV::of(d), k).code()
+            }
+            fn fleby(&mut self, t: u8, d: u32, p: u8) -> u32 {
+                KeyExpCollection::first_less_or_equal_by(self, t, WV::of(d), by(p)).code()
+            }
+            fn clear(&mut self) {
+                KeyExpCollection::clear(self)
+            }
+            fn export(self, t: u8) -> Vec<u32> {
+                self.into_ordered_vec(t).into_iter().map(|w| w.code()).collect()
+            }
+            fn snap(&self) -> KSnap {
+                wide_snap(self)
+            }
+        }
+    };
+}
+trait WideSnap {
+    fn wsnap(&self) -> KSnap;
+}
+impl WideSnap for KTW {
+    fn wsnap(&self) -> KSnap {
+        let s = self.verif_snapshot();
+        KSnap::Tree(ArenaSnap {
+            root: s.root,
+            slots: s.slots.iter().map(|x| SlotSnap { parent: x.parent, left: x.left, right: x.right, black: x.black, payload: (x.payload.0.id, x.payload.0.exp, x.payload.0.tag, x.payload.1.code()) }).collect(),
+            unused: s.unused,
+            unused_capacity: s.unused_capacity,
+        })
+    }
+}
+impl WideSnap for KLW {
+    fn wsnap(&self) -> KSnap {
+        let (v, m) = self.verif_snapshot();
+        KSnap::List(v.iter().map(|(k, val)| (k.id, k.exp, k.tag, val.code())).collect(), m)
+    }
+}
+fn wide_snap<T: WideSnap>(t: &T) -> KSnap {
+    t.wsnap()
+}
+wide_ksub!(KTW, true, "KeyExpTree<EKey,u8,WV(40 bytes)>");
+wide_ksub!(KLW, false, "KeyExpList<EKey,u8,WV(40 bytes)>");
+
 impl KSub for KL {
     const IS_TREE: bool = false;
     fn name() -> String {
